@@ -174,6 +174,8 @@ def r1(chk, facts):
                 tail = n.get("e") or {}
                 if not n.get("stmts") and any(str(m).startswith("~Format") for m in (tail.get("mac") or [])):
                     continue      # the compiler's own lowering of format_args!
+                if any("thread_local" in str(m) for m in (n.get("mac") or []) + (tail.get("mac") or [])):
+                    continue      # std's thread_local! expansion (lazy-init internals), not repository code
                 bad_unsafe.append(k)
             if n.get("k") in ("call", "mcall") and re.search(r"(transmute|MaybeUninit|mem::zeroed|ptr::(write|read|copy)|from_raw)", callee(n) or ""):
                 bad_unsafe.append(k)
